@@ -41,48 +41,65 @@ HARNESS_BIN = "c01"
 NCASES = {"quick": 9000, "thorough": 120000}
 CASE_TIMEOUT = {"quick": 30, "thorough": 120}
 
-LEVEL_TEXT = ("Machine-checked Coq theorems (28 pinned in coq/props/C01.v, no axioms) over word lists of an arbitrary word size "
-              "w >= 8 and for ALL operand lengths: faithful word-level models of the carry/borrow kernels of add.rs (incl. "
-              "sub_in_place_with_sign), of the word/double-word multipliers, the schoolbook rows (carry_plus_max trick), "
-              "helpers::add_signed_mul_split_into_chunks, Karatsuba with its deferred carries, the size dispatch (proved for "
-              "every admissible threshold triple; the thresholds regenerated from the source are proved admissible; the fuel "
-              "of the recursive definitions is proved sufficient), sqr::simple::square with its three carry bits, and of the "
-              "Small/Large arms of + - * sqr cubic pow (add_dword spill, add_large, sub_large_ref_val, mul_large_dword with "
-              "the power-of-two shortcut, square shortcut, max_exp_in_word lifting, the three pow loops, factor-2 removal, "
-              "sign rules) are proved to return exactly a+b, a-b (Panic NegativeUBig exactly when a<b and no other panic), "
-              "a*b, a^2, a^3, a^n, normalised and inline iff <= 2 words; every kernel carry is proved to be in {-1,0,1} / 0 "
-              "where the code debug_asserts it. The IBig sign tables are regenerated from the source and proved equal to "
-              "Z.add/Z.sub/Z.mul. Toom-3 is modelled with its real recursion (five word-level products) and its "
-              "evaluation/interpolation at value level: proved that no 'never negative' subtraction goes negative, both "
-              "divisions are exact, intermediates fit their buffers, result = c + sign*a*b.")
-LEVEL_NOTE = ("Trusted: Coq kernel, translator (thresholds, sign tables), extraction + FastZ.v, zarith, harness. Not proved: that the "
-              "hand-written models transcribe the Rust (measured on every run: model_fidelity same/diff per case, incl. kernel "
-              "hooks at every length class); the Toom-3 slice/deferred-carry bookkeeping (value-level model; compared through "
-              "the kernel hook); shifts inside pow are modelled by their value (C09); Buffer capacity management, scratch "
-              "memory sizes and the unsafe Repr transmute (C17); primitive-operand forwarding and the assign forms (compared only).")
-TECHNIQUE = "Coq proof of as-is word-level models = Z specification + extracted-spec correspondence run incl. kernel hooks"
+LEVEL_TEXT = ("Machine-checked Coq theorems (60 pinned in coq/props/C01.v, no axioms) over word lists of an arbitrary word size "
+              "w >= 8 and for ALL operand lengths. (a) Word-level, proved = Z arithmetic: the carry/borrow kernels of add.rs, the "
+              "word/double-word multipliers, the schoolbook rows (carry_plus_max trick), helpers::add_signed_mul_split_into_chunks, "
+              "Karatsuba with its deferred carries, Toom-3 ENTIRELY at word level (slices of c, scratch buffers t1/t2, evaluation at "
+              "0, 1, -1, 2, inf, the five deferred carries, and its calls div_by_word_in_place(t1, 6) / shr_in_place(t2, 1) through "
+              "the word-level models of C02: no 'never negative' subtraction goes negative, both divisions are exact, no "
+              "debug_assert fires), the size dispatch of mul/mod.rs over these kernels for every admissible threshold triple and "
+              "every length pair (balanced or not; thresholds regenerated from the source and proved admissible incl. Toom-3 only at "
+              ">= MIN_LEN = 16; fuel proved sufficient; carry in {-1,0,1}), sqr::simple::square + the sqr dispatch, the three kernel "
+              "entry points the hook drives; the word-level dispatch is proved EQUAL to the value-level one. (b) Scratch memory: the "
+              "words consumed by Karatsuba / Toom-3 / the chunk helper / sqr, transcribed allocation by allocation, never exceed the "
+              "memory_requirement formulas REGENERATED from the source (2n + 2 ceil_log2 n; 4n + 13 ceil_log2 n via the invariant "
+              "f(n) <= 4n + 20(k-2) for n <= 3^k + 2 and 2^20 < 3^13; monotone in n), for every length and every threshold pair "
+              "with T_simple >= 1, T_kara >= 15. (c) Operators: Small/Large arms of + - * sqr cubic over the word-level kernels "
+              "(add_dword spill, add_large, sub_large_ref_val, mul_large_dword, square shortcut) return exactly a+b, a-b (Panic "
+              "NegativeUBig exactly when a<b), a*b, a^2, a^3, canonical; pow.rs with its storage bookkeeping: max_exp_in_word "
+              "lifting, the exp < wexp / < 2 wexp shortcuts, the square-and-multiply loops ON THE RESULT BUFFER - every push stays "
+              "within the capacity asked for (exp+1 resp. 2 exp words, regenerated), push_zeros has room, the copy of res and the "
+              "squaring's scratch fit the MemoryAllocation - pow_large_base, factor-2 removal and 2^k bases through the word-level "
+              "shr / shl / trailing_zeros / set_bit models of C09, sign rule; result = base^exp, canonical. (d) Primitive-operand "
+              "forms (UBig + u64, i128 * IBig, u8 - UBig, assign forms): conversion (from_unsigned, to_sign_magnitude with "
+              "wrapping_neg) + operation = Z operation or Panic NegativeUBig. IBig sign tables regenerated and proved.")
+LEVEL_NOTE = ("Trusted: Coq kernel, translators (thresholds, sign tables, memory formulas / pow capacities), extraction + FastZ.v, "
+              "zarith, harness. Assumed with C02: num-modular's div_rem_2by1 returns quotient and remainder for a normalised divisor "
+              "(hypothesis of every theorem that reaches Toom-3; the oracle instantiates it by exact division). Not proved: that the "
+              "hand-written models transcribe the Rust - measured on every run (model_fidelity same/diff per case: public operators "
+              "in all call forms, every multiplier through verif_hooks::mul_kernel at every length class, the scratch consumption "
+              "model against the MEASURED least amount of scratch with which the real kernel runs, op kmem). By value only: "
+              "Repr::from_le_bytes_large inside from_unsigned for primitives wider than a double word (C07), Buffer capacity "
+              "growth policy and the unsafe Repr transmute (C17), usize overflow of exp * shift.")
+TECHNIQUE = "Coq proof of as-is word-level models = Z specification (incl. scratch-memory and buffer-capacity sufficiency) + extracted-model correspondence run incl. kernel and scratch hooks"
 RULE = ("cases = operation x call form {vv,vr,rv,rr,av,ar} x operand word counts from {0,1,2,3,4,5} u {T-1,T,T+1 for T in "
         "24 (schoolbook), 30 (squaring), 192 (Karatsuba)} u multiples/unbalanced lengths (k*n+r, 1025+ for the chunked schoolbook) "
         "x bit patterns {all-ones, 2^k, 2^k+-1, low words zero, top word 1/MAX, sparse, 0/MAX words, random} x related operands "
         "{equal, +-1, equal high part, carry chains across the 2->3 word boundary, borrow chains} x both signs; pow: base classes "
         "{0,1,2,2^k, word below/above the lifting shortcuts, double word, >=3 words, even bases} x exponents {0..5, around wexp and "
         "2*wexp, up to results of thousands of words}; kernels: each multiplier forced through verif_hooks::mul_kernel at lengths "
-        "around its minimum and the thresholds with random/all-ones/zero accumulators and both signs, sqr_kernel at 2..3*30. "
+        "around its minimum and the thresholds (dispatch at 23..26, 191..196, 570..579 = Toom-3 whose recursive products straddle "
+        "192/193, balanced and unbalanced incl. swapped operands) with random/all-ones/zero accumulators and both signs, sqr_kernel "
+        "at 2..3*30; kmem: scratch reserved vs least scratch that runs (binary search with verif_hooks::mul_kernel_scratch) at "
+        "lengths around every threshold, powers of two and three, unbalanced pairs; primitives of every width on both sides. "
         "non-trivial = the oracle evaluated the Coq specification and the operands are not both zero; distinct = distinct case texts.")
 EXPLANATION = ("Theorems (coq/props/C01.v): every kernel of add.rs/mul/*.rs/sqr modelled over word lists satisfies its value contract "
-               "c' + carry*B^n = c + sign*a*b for all inputs, all lengths and all word sizes; the Small/Large operator arms of "
-               "+ - * sqr cubic pow equal Z arithmetic for every ownership form; the regenerated sign tables equal "
-               "Z.add/Z.sub/Z.mul. Tie to the code: thresholds and tables re-translated from the source on every run (the "
-               "admissibility lemma fails to compile if a threshold violates a MIN_LEN); public operators and hook-driven "
-               "kernels compared with the extracted specification (GMP integers) and with the extracted as-is models "
-               "(fidelity statistic).")
+               "c' + carry*B^n = c + sign*a*b for all inputs, all lengths and all word sizes - Toom-3 and the dispatch entirely at "
+               "word level; scratch memory consumed <= reserved for all lengths; the Small/Large operator arms of + - * sqr cubic "
+               "pow (with buffer capacities) and the primitive forms equal Z arithmetic; the regenerated sign tables equal "
+               "Z.add/Z.sub/Z.mul. Tie to the code: thresholds, tables, memory formulas and pow capacities re-translated from the "
+               "source on every run (a changed constant breaks a proof obligation); public operators and hook-driven kernels "
+               "compared with the extracted specification (GMP integers) and with the extracted WORD-LEVEL as-is models (fidelity "
+               "statistic), scratch consumption compared with the measured minimum.")
 TRUSTED_BASE = [
     "Coq 8.16.1 kernel (coqc, full .vo build)",
     "tools/translate.py renders THRESHOLD_SIMPLE/THRESHOLD_KARATSUBA/MIN_LEN/CHUNK_LEN/MAX_LEN_SIMPLE and impl_ibig_add/sub/mul faithfully (add->Z.add, sub_signed->Z.sub, with_sign->signed)",
+    "tools/translate_c01_r3.py renders math::ceil_log2, memory_requirement_up_to/_exact (mul, karatsuba, toom_3, sqr) and the Buffer::allocate / MemoryAllocation::new amounts of pow.rs into coq/gen/MulMemory.v, counting layouts in words; bit_len is a hand-written atom (Z.log2 + 1)",
+    "num-modular Normalized2by1Divisor::div_rem_2by1 meets its contract (hypothesis shared with C02; used by Toom-3's division by 6)",
     "extraction: ExtrOcamlBasic + ExtrOcamlZBigInt + coq/extract/FastZ.v; Z in the oracle is zarith/GMP (the independent big-integer implementation the property asks for)",
     "OCaml 4.13.1 + zarith 1.12, oracle/common.ml, oracle/driver_c01.ml; Rust harness harness/src/bin/c01.rs",
-    "hooks dashu_int::verif_hooks::{mul_kernel, sqr_kernel, MUL_PARAMS, repr_layout_*} (cfg(dashu_verif), add-only) call the internal kernels unchanged",
-    "the hand-written word-level models in coq/theories/Int/Ring*.v transcribe the Rust kernels; fidelity is measured by the correspondence run, not proved",
+    "hooks dashu_int::verif_hooks::{mul_kernel, mul_kernel_scratch, mul_scratch_words, sqr_kernel, MUL_PARAMS, repr_layout_*} (cfg(dashu_verif), add-only) call the internal kernels unchanged",
+    "the hand-written word-level models in coq/theories/Int/Ring*.v (and the C02/C09 models they call: DivWordModel.div_by_word/shr_in_place, BitsKernels.repr_shl/shr_ref/set_bit/trailing_zeros) transcribe the Rust; fidelity is measured by the correspondence run, not proved",
 ]
 ASSUMPTIONS = [
     "UBig::from_words / as_words / IBig::from_parts / as_sign_words transport values faithfully (used by the harness instead of any parser)",
